@@ -9,7 +9,7 @@ EXPLANATION = ("PARTIAL. K1: the real sbe_schema_validator::value_fits_into_type
                "K3: for boundary-valid schemas (offset exactly at the minimum, blockLength exactly the content size, choice index = width-1) and for their one-edit-invalid twins, whatever the rebuilt "
                "sbeppc ACCEPTS must be layout-sound: cbmc proves pairwise non-interference of all members of every level (set A, then B reads the same) and containment inside the block on the generated code; "
                "a twin that is rejected is recorded with its exit status and diagnostic (observation, not a solver verdict). "
-               "NOT covered (cannot be encoded by the IR->C route: std::string/unordered_map/variant/pugixml/exceptions with fmt): reference/cycle/kind rules, header shape, names/keywords/duplicates, XML-level checks, FP literals (strtof/strtod are libc), choice-index comparison inside validate_choices.")
+               "NOT covered (cannot be encoded by the IR->C route: std::string/unordered_map/variant/pugixml/exceptions with fmt): reference/cycle/kind rules, header shape, names/keywords/duplicates, XML-level checks, FP literals beyond the strtof/strtod contract stub (the numeric conversion itself is libc), choice-index comparison inside validate_choices.")
 
 INT = {"char": (8, True), "int8": (8, True), "uint8": (8, False), "int16": (16, True), "uint16": (16, False), "int32": (32, True), "uint32": (32, False), "int64": (64, True), "uint64": (64, False)}
 
@@ -125,6 +125,61 @@ def build(ctx):
                       desc="value_fits_into_type(value, \"%s\") for all byte strings of length <= %d" % (t, ml), bounds={"string_length": "0..%d" % ml, "bytes": "all 256 values"})
         h.meta["no_native"] = True   # wrapper TU needs sbeppc headers + fmt: replayed by the solver trace only
         h.text = h.text.replace('#include "harness_rt.h"', '#include "harness_rt.h"\nvoid env_throw_error(void){ verif_aborted = 2; }')
+        hs.append(h)
+    # ---- K1-FP: float/double literals. strtof/strtod are libc: nondeterministic stubs constrained only by their contract
+    cppf = K1_CPP + "".join("W bool k_fits_%s(const char* s, size_t n){ return sbepp_verif_access::fits(std::string_view{s, n}, \"%s\"); }\n" % (t, t) for t in ("float", "double"))
+    uf = ctx.try_lower("c08k1fp", cppf, std="17", mode="unchecked", exceptions=True, extra=["-DNDEBUG", "-I" + P.REPO + "/sbeppc/src", "-I" + P.FMT_PREFIX + "/include"],
+                       extern_map={"__stub_funcs__": {"throw_error": "env_throw_error"}})
+    if "error" in uf:
+        raise P.EngineError("K1-FP kernel does not lower: %s %s" % (uf["error"], uf.get("stderr", "")[-800:]))
+    ENVFP = r"""
+void env_throw_error(void){ verif_aborted = 2; }
+static int env_errno; static u32 env_consumed; static int env_erange, env_overflow, env_called;
+unsigned char *__errno_location(void){ return (unsigned char *)&env_errno; }
+uint32_t isspace(uint32_t c){ return c == ' ' || (c >= 9 && c <= 13); }
+uint32_t isalpha(uint32_t c){ return (c >= 'A' && c <= 'Z') || (c >= 'a' && c <= 'z'); }
+/* contract of strtof/strtod: consumes some prefix (*end in [s, s+strlen(s)]); on overflow returns +-HUGE_VAL and sets errno=ERANGE, on underflow returns a tiny value and MAY set ERANGE */
+#define STRTO(NAME, T, HUGE, TINY) T NAME(unsigned char *s, unsigned char *end){ \
+  u32 n = 0; while (s[n]) n++; IN(u32, k); VASSUME(k <= n); *(unsigned char **)end = s + k; env_consumed = k; env_called++; \
+  IN(u8, outcome); T v; IN(u64, bits); \
+  if ((outcome & 3) == 1) { env_errno = 34; env_erange = 1; env_overflow = 1; return HUGE; } \
+  if ((outcome & 3) == 2) { env_errno = 34; env_erange = 1; env_overflow = 1; return -HUGE; } \
+  if ((outcome & 3) == 3) { env_errno = 34; env_erange = 1; return (bits & 1) ? TINY : -TINY; } \
+  memcpy(&v, &bits, sizeof v); return v; }
+STRTO(strtof, float, __builtin_inff(), 1e-45f)
+STRTO(strtod, double, __builtin_inf(), 4.9e-324)
+"""
+    for t in ("float", "double"):
+        ML = 6
+        body = r"""
+  enum { ML = %(ml)d };
+  IN_BYTES(s, ML + 1); IN(u32, len); VASSUME(len <= ML);
+  for (unsigned i = 0; i < ML; i++) if (i < len) VASSUME(s[i] != 0);
+  s[len] = 0;
+  /* reference of the XML/SBE rules for FP literals, given what strto* reports */
+  _Bool pre = len > 0 && !(s[0] == ' ' || (s[0] >= 9 && s[0] <= 13));
+  unsigned o = 0; _Bool sign = 0;
+  if (len > 0 && (s[0] == '+' || s[0] == '-')) { sign = 1; o = 1; }
+  unsigned sl = len - o;
+  if (pre && sl > 1) {
+    if (s[o] == '0' && (s[o + 1] == 'x' || s[o + 1] == 'X')) pre = 0;
+    else if ((s[o] >= 'A' && s[o] <= 'Z') || (s[o] >= 'a' && s[o] <= 'z')) {
+      _Bool nan = sl == 3 && s[o] == 'N' && s[o + 1] == 'a' && s[o + 2] == 'N' && !sign;
+      _Bool inf = sl == 3 && s[o] == 'I' && s[o + 1] == 'N' && s[o + 2] == 'F';
+      if (!nan && !inf) pre = 0;
+    }
+  }
+  _Bool got = 0;
+  CALL(got = k_fits_%(t)s(s, len));
+  if (!pre) VASSERT(!got, "malformed FP literal (empty, leading space, hex, stray letters) is rejected");
+  else { VASSERT(env_called == 1, "the literal is handed to strtof/strtod exactly once");
+         if (env_consumed != len || env_overflow) VASSERT(!got, "an FP literal with trailing garbage, or whose magnitude overflows the type (+HUGE_VAL or -HUGE_VAL with ERANGE), is rejected");
+         if (env_consumed == len && !env_erange) VASSERT(got, "a completely consumed, representable FP literal is accepted");
+         /* ERANGE on underflow (tiny result): the property does not say whether such a literal is representable -- not asserted */ }
+""" % {"ml": ML, "t": t}
+        h = P.Harness("k1_%s" % t, hgen.harness([uf], body, pre=ENVFP), [uf], unwind=ML + 3, cap=ctx.q(200, 900), backends=["minisat", "kissat"], extra_flags=["--no-standard-checks"],
+                      desc="value_fits_into_type(value, \"%s\") for all strings of length <= %d against a contract stub of strtof/strtod (any prefix consumed, any value, ERANGE for +-overflow and underflow)" % (t, ML),
+                      bounds={"string_length": "0..%d" % ML, "strto*": "nondeterministic contract stub"}, meta={"no_native": True})
         hs.append(h)
     # ---- K3
     work = ctx.slot.path("rules", "x")[:-2]
